@@ -8,7 +8,7 @@
 //!   Operators: == != < <= > >= partial_cmp cmp; Hash through a recording Hasher; Debug/Display
 //!   through a recording payload; Borrow/AsRef.
 //! ASSUME: none beyond Kani's own models (no allocator stubs needed here).
-//! OUTSIDE: real HashMap/BTreeMap lookups (SipHash and B-tree loops); slices longer than 2.
+//! OUTSIDE: real HashMap/BTreeMap lookups (SipHash and B-tree loops); slices longer than 2 (quick) / 3 (thorough).
 use crate::ghost::*;
 use core::cmp::Ordering;
 use core::hash::{Hash, Hasher};
@@ -158,6 +158,9 @@ h!(r0_slice_0_1, 27, slice_case::<0, 1>());
 h!(r1_slice_2_0, 27, slice_case::<2, 0>());
 h!(r2_slice_0_0, 27, slice_case::<0, 0>());
 h!(r2_slice_1_1, 27, slice_case::<1, 1>());
+h!(t_slice_3_3, 27, slice_case::<3, 3>());
+h!(t_slice_3_2, 27, slice_case::<3, 2>());
+h!(t_slice_0_3, 27, slice_case::<0, 3>());
 fn str_case<const LA: usize, const LB: usize>() {
     let mut x: [u8; LA] = kani::any();
     let mut y: [u8; LB] = kani::any();
@@ -200,6 +203,8 @@ h!(q_hs_1_2, 27, hs_case::<1, 2>());
 h!(r0_hs_2_1, 27, hs_case::<2, 1>());
 h!(r1_hs_0_1, 27, hs_case::<0, 1>());
 h!(r2_hs_0_0, 27, hs_case::<0, 0>());
+h!(t_hs_3_3, 27, hs_case::<3, 3>());
+h!(t_hs_2_3, 27, hs_case::<2, 3>());
 
 /// header-with-length payloads with arbitrary recorded lengths (publicly constructible):
 /// all operators must be mutually consistent, and agree with (header, slice) whenever the
@@ -245,6 +250,8 @@ h!(q_hwl_2_1, 27, hwl_case::<2, 1>());
 h!(r0_hwl_0_0, 27, hwl_case::<0, 0>());
 h!(r1_hwl_2_2, 27, hwl_case::<2, 2>());
 h!(r2_hwl_0_2, 27, hwl_case::<0, 2>());
+h!(t_hwl_3_3, 27, hwl_case::<3, 3>());
+h!(t_hwl_1_3, 27, hwl_case::<1, 3>());
 
 // ------------------------------------------------------------------ ThinArc
 fn thin_case<const LA: usize, const LB: usize>() {
@@ -268,6 +275,8 @@ h!(q_thin_1_2, 27, thin_case::<1, 2>());
 h!(r0_thin_0_0, 27, thin_case::<0, 0>());
 h!(r1_thin_2_0, 27, thin_case::<2, 0>());
 h!(r2_thin_1_1, 27, thin_case::<1, 1>());
+h!(t_thin_3_3, 27, thin_case::<3, 3>());
+h!(t_thin_3_1, 27, thin_case::<3, 1>());
 h!(q_thin_f32, 27, {
     let (ha, hb, xa, xb): (f32, f32, f32, f32) = kani::any();
     let a = ThinArc::from_header_and_slice(ha, &[xa][..]);
